@@ -2,18 +2,27 @@
 From Connectome Require Import Values MiscGen Loopback LoopbackFacts.
 Local Open Scope list_scope.
 
-(* For every chain of invertible, inheriting, forward-only and cache layers: threading the contexts through the
-   connections (ChainContext(previous, current)) and reversing them "current first, then previous" computes exactly
-   forward fields in order ; f ; inverse fields in reverse order, each inverse with the parameter value of its own
-   layer's forward pass. *)
-Theorem C10_loopback : forall x0 ks, loopback x0 ks = loopback_spec x0 ks.
+(* For every chain of layers - x defined (with or without a private parameter), inherited or absent; any @inverse
+   fields, each with any backward arguments and possibly the parameter; any inherit set; cache layers - and any
+   requested outputs: threading the contexts through the connections (ChainContext(previous, current)) and reversing
+   them "current first, then previous" computes exactly forward fields in order ; f ; backward parts in reverse order,
+   each with the parameter value of its own layer's forward pass; rejected exactly when x or a requested field is
+   not reachable. *)
+Theorem C10_loopback : forall x0 ls outs final, loopback x0 ls outs final = loopback_spec x0 ls outs final.
 Proof. exact loopback_correct. Qed.
 Print Assumptions C10_loopback.
 
 (* an output without an inverse path through some layer is rejected, wherever that layer sits *)
-Theorem C10_rejects_forward_only : forall x0 ks1 i ks2, loopback x0 (ks1 ++ KFwdOnly i :: ks2) = None.
+Theorem C10_rejects_forward_only : forall x0 ks1 i ks2,
+  loopback x0 (map layer_of (ks1 ++ KFwdOnly i :: ks2)) ["y"] ["y"] = None.
 Proof. exact fwd_only_rejects. Qed.
 Print Assumptions C10_rejects_forward_only.
+
+(* an invertible layer applies its own inverse to what comes back, with the parameter of its own forward pass *)
+Theorem C10_inverse_sees_its_own_parameter : forall i x v e, elookup e "y" = Some v ->
+  elookup (reverse (ctx_layer (layer_of (KInv i)) (Some x)) e) "y" = Some (VApp (sym "I" i) [v; VApp (sym "P" i) [x] []] []).
+Proof. exact inv_layer_step. Qed.
+Print Assumptions C10_inverse_sees_its_own_parameter.
 
 (* regenerated: every default-named argument of an @inverse function is a backward input (not only the first one), and a
    chain's context reverses the current layer before the previous ones *)
@@ -23,9 +32,17 @@ Proof. split; reflexivity. Qed.
 Print Assumptions C10_rules_are_translated.
 
 Example C10_example :
-  loopback (VStr "x0") [KInv 0; KCache; KInhAll; KInvNoParam 3]
-  = Some (VApp "I0" [VApp "I3" [VApp "f" [VApp "F3" [VApp "F0" [VStr "x0"; VApp "P0" [VStr "x0"] []] []] []] []] [];
-                     VApp "P0" [VStr "x0"] []] [])
-  /\ loopback (VStr "x0") [KInv 0; KFwdOnly 1; KInv 2] = None.
+  loopback (VStr "x0") (map layer_of [KInv 0; KCache; KInhAll; KInvNoParam 3]) ["y"] ["y"]
+  = Some [VApp "I0" [VApp "I3" [VApp "f_y" [VApp "F3" [VApp "F0" [VStr "x0"; VApp "P0" [VStr "x0"] []] []] []] []] [];
+                     VApp "P0" [VStr "x0"] []] []]
+  /\ loopback (VStr "x0") (map layer_of [KInv 0; KFwdOnly 1; KInv 2]) ["y"] ["y"] = None
+  /\ (* an inverse with two backward arguments, and a layer that inherits w only *)
+     loopback (VStr "x0")
+       [{| bl_id := 0; bl_fwd := FDef false; bl_inh := InhList []; bl_cache := false;
+           bl_defs := [{| bd_out := "y"; bd_fn := "Iy0"; bd_args := ["y"; "w"]; bd_param := false |};
+                       {| bd_out := "w"; bd_fn := "Iw0"; bd_args := ["w"]; bd_param := false |}] |};
+        {| bl_id := 1; bl_fwd := FInherit; bl_inh := InhList ["w"; "x"]; bl_cache := false;
+           bl_defs := [{| bd_out := "y"; bd_fn := "Iy1"; bd_args := ["y"]; bd_param := false |}] |}] ["y"; "w"] ["y"]
+     = Some [VApp "Iy0" [VApp "Iy1" [VApp "f_y" [VApp "F0" [VStr "x0"] []] []] []; VApp "f_w" [VApp "F0" [VStr "x0"] []] []] []].
 Proof. vm_compute. auto. Qed.
 Print Assumptions C10_example.
